@@ -14,6 +14,8 @@
 (*                        end (about to leave the loop); prod = frames      *)
 (*                        pushed so far                                     *)
 (*   exit               the thread released its decoder                     *)
+(*   waitgone           gameplay: resume_at(a clock time) + the clock's     *)
+(*                      handle dropped: the wait can never end              *)
 (*   stop | reject | discard     gameplay: handle.stop(0) / the sound was   *)
 (*                      refused by a full track / dropped with its track or *)
 (*                      manager                                             *)
@@ -89,7 +91,9 @@ Upd(m, e) ==
     [] e.a = "exit" -> [m EXCEPT !.exited = TRUE]
     [] e.a \in {"reject", "discard"} -> [Cause(m, e.a) EXCEPT !.gone = TRUE]
     [] e.a = "cb" ->
-         LET m1 == IF e.state = "Stopped" THEN Cause(m, "stopped") ELSE m IN
+         \* (a sound that is no longer on its track has finished or been stopped, whatever its handle says)
+         LET m1 == IF e.state = "Stopped" THEN Cause(m, "stopped")
+                   ELSE IF m.created /\ e.nsounds = 0 THEN Cause(m, "unloaded") ELSE m IN
          [m1 EXCEPT !.nx = NextAfter(e.idx, 1, m.nx), !.gap = GapAfter(e.idx, m.gap),
                     !.cbSinceFail = IF m.failed THEN @ + 1 ELSE 0,
                     !.stoppedSeen = (e.state = "Stopped")]
